@@ -454,8 +454,14 @@ def _prioritize_call(eng, st, fv, args, kwargs):
     return eng.ok(st, P.fresh("real", "prio"))
 
 
-def havoc_other_entries(eng, st, state_ref, ent, side, fields):
-    """index maintenance may oust / re-path other entries on `side`: their listed fields become arbitrary"""
+def havoc_other_entries(eng, st, state_ref, ent, side, fields, when=None):
+    """index maintenance may oust / re-path other entries on `side`: their listed fields become arbitrary (only under
+    the condition `when`, if given: e.g. _change_path touches other entries only for a new, non-empty path)"""
+    if when is not None and z3.is_false(z3.simplify(when)):
+        return
+
+    def sel(new, old):
+        return new if when is None else ite(when, new, old)
     for other in st.obj(state_ref).meta.get("entries", []):
         if other.addr == ent.addr:
             continue
@@ -463,17 +469,17 @@ def havoc_other_entries(eng, st, state_ref, ent, side, fields):
         pre = P.fresh_name("havoc.%s" % so.meta.get("prefix"))
         for f in fields:
             if f == "oid":
-                so.fields["_oid"] = ite(z3.Bool(pre + ".oid.kept"), so.fields["_oid"], NONE)
+                so.fields["_oid"] = sel(ite(z3.Bool(pre + ".oid.kept"), so.fields["_oid"], NONE), so.fields["_oid"])
             elif f == "path":
-                so.fields["_path"] = opt(pre + ".path", named("str", pre + ".path"))
+                so.fields["_path"] = sel(opt(pre + ".path", named("str", pre + ".path")), so.fields["_path"])
             elif f == "sync_path":
-                so.fields["_sync_path"] = opt(pre + ".sync_path", named("str", pre + ".sync_path"))
+                so.fields["_sync_path"] = sel(opt(pre + ".sync_path", named("str", pre + ".sync_path")), so.fields["_sync_path"])
             elif f == "changed":
-                so.fields["_changed"] = mk_union([(z3.Bool(pre + ".changed.kept"), so.fields["_changed"]),
-                                                  (znot(z3.Bool(pre + ".changed.kept")), C(0))])
+                so.fields["_changed"] = sel(mk_union([(z3.Bool(pre + ".changed.kept"), so.fields["_changed"]),
+                                                      (znot(z3.Bool(pre + ".changed.kept")), C(0))]), so.fields["_changed"])
         st.touch(so)
         oo = st.obj(other)
-        oo.fields["_priority"] = named("real", pre + ".priority")
+        oo.fields["_priority"] = sel(named("real", pre + ".priority"), oo.fields["_priority"])
         st.touch(oo)
 
 
@@ -511,7 +517,9 @@ def h_change_path(eng, st, self_v, args, kwargs):
         so_i.fields["_changed"] = mk_union(shifted)
         st.touch(so_i)
     st.ghost["dirty:%d" % ent.addr] = True
-    havoc_other_entries(eng, st, self_v, ent, sd, ("path", "sync_path", "oid", "changed"))
+    # the body touches other entries (ousting the previous holder of (path, oid), re-rooting children, priorities) only
+    # when a new non-empty path is recorded; for an unchanged or empty path it only drops this entry's own path binding
+    havoc_other_entries(eng, st, self_v, ent, sd, ("path", "sync_path", "oid", "changed"), when=zand(t, znot(same)))
     return eng.ok(st, NONE)
 
 
